@@ -294,7 +294,8 @@ class CHECK(Check):
                "python str.replace with a one-character pattern = per-character substitution (List.flatMap in the model)")
     assumptions = ("every row has the same number (>= 1) of columns",
                    "cells are str, int, float or bool; None only inside object arrays (where numpy's astype(str) yields "
-                   "'None'; a None in a DataFrame is a missing value and the table is rejected); no NaN")
+                   "'None'; a None in a DataFrame column that pandas types is a missing value and the table is rejected, a column "
+                   "that is None throughout stays object and is stringified - either outcome is accepted); no NaN")
 
     # ---------------------------------------------------------------- generation
     def _rand_str(self, rng):
@@ -924,13 +925,16 @@ class CHECK(Check):
         probs = []
         rows = case["rows"]
         single = len(case["cols"]) == 1
-        missing = case["container"] == "df" and any(v is None for r in rows for v in r)
-        if "rejected" in o or missing:
-            # None in a DataFrame = missing value -> rejected by the validation; None in an object ndarray is the
-            # string 'None' after astype(str) (inside the property's "compared as strings" clause)
-            if ("rejected" in o) != missing:
-                return [Problem("correspondence", f"table {'rejected' if 'rejected' in o else 'accepted'} ({case['container']}, "
-                                                  f"rows {rows})", "C13.callers_missing_values")]
+        has_none_df = case["container"] == "df" and any(v is None for r in rows for v in r)
+        if "rejected" in o:
+            # A None in a DataFrame column that pandas types (a string or numeric column) is a missing value and sklearn's
+            # check_array rejects the table; a column that is None THROUGHOUT stays dtype object and its cells become the
+            # string 'None' (inside the property's "compared as strings" clause), like None in an object ndarray.  Which
+            # of the two happens is pandas' dtype inference, not part of C13: a rejection is accepted as a result whenever
+            # the DataFrame holds a None, and an accepted table is judged like any other.
+            if not has_none_df:
+                return [Problem("correspondence", f"table rejected ({case['container']}, rows {rows})",
+                                "C13.callers_missing_values")]
             return []
         keys = [caller_key(case, r) for r in rows]
         want = classes_of(keys)
